@@ -1,4 +1,5 @@
 import RichModel.Model.Markup
+import RichModel.Model.MarkupHL
 import RichModel.Drv.Proto
 /- Driver handlers for property C04 (markup tokenizer, escape, _parse, render, _emoji_replace). -/
 namespace RichModel.Drv.C04
@@ -39,6 +40,30 @@ def encPEv : PEv → String
   | .tag pos t => "G," ++ toString pos ++ "," ++ encStr t.name ++ "," ++
       (match t.params with | none => "-" | some p => "=" ++ encStr p)
 
+/-- `start.stop.style/…` -/
+def decSpans (s : String) : List Span :=
+  if s.isEmpty then [] else (s.splitOn "/").filterMap (fun t =>
+    match t.splitOn "." with
+    | [a, b, st] => some { start := decNat a, stop := decNat b, style := decStr st }
+    | _ => none)
+
+/-- `n:plain>spans,plain>spans` — what the real highlighter answered for each plain text it was given -/
+def decHlTable (s : String) : List (List Char × List Span) :=
+  match s.splitOn ":" with
+  | [n, body] =>
+    if n == "0" then [] else (body.splitOn ",").filterMap (fun kv =>
+      match kv.splitOn ">" with
+      | [k, v] => some (decStr k, decSpans v)
+      | _ => none)
+  | _ => []
+
+/-- the recorded highlighter; a plain text the real one was never given answers a NUL-styled span
+(no implementation answer contains one), so a disagreement about WHAT is highlighted cannot hide -/
+def hlT (t : List (List Char × List Span)) : Highlighter := fun p =>
+  match t.find? (fun q => q.1 == p) with
+  | some (_, sp) => sp
+  | none => [{ start := 0, stop := 0, style := [Char.ofNat 0] }]
+
 def handlers : List (String × (List String → String)) := [
   ("mk_isspace", fun a => match a with
     | [cp] => encBool (pyIsSpace (Char.ofNat (decNat cp)))
@@ -75,6 +100,23 @@ def handlers : List (String × (List String → String)) := [
                          isSpace := pyIsSpace, sortSpans := false }
       encRendered (printStrs cfg { emoji := decBool ce, markup := decBool cm } (decOptBool e) (decOptBool m)
         (decStr sep) (decStrList strs))
+    | _ => "bad-args"),
+  -- Console(emoji=ce, markup=cm, highlight=ch, highlighter=H).render_str(text, emoji=e, markup=m, highlight=h[, highlighter=A])
+  ("mk_render_str_h", fun a => match a with
+    | [s, ce, cm, ch, e, m, h, useArg, normTbl, emojiTbl, conHl, argHl] =>
+      let cfg : Cfg := { norm := normT (decTable normTbl), emoji := some (lookupT (decTable emojiTbl)),
+                         isSpace := pyIsSpace, sortSpans := false }
+      let con : ConsoleH := { emoji := decBool ce, markup := decBool cm, highlight := decBool ch, highlighter := hlT (decHlTable conHl) }
+      encRendered (renderStrH cfg con (decOptBool e) (decOptBool m) (decOptBool h)
+        (if decBool useArg then some (hlT (decHlTable argHl)) else none) (decStr s))
+    | _ => "bad-args"),
+  -- … ._collect_renderables(strs, sep, end, emoji=e, markup=m, highlight=h)[0]
+  ("mk_print_h", fun a => match a with
+    | [strs, sep, ce, cm, ch, e, m, h, normTbl, emojiTbl, conHl] =>
+      let cfg : Cfg := { norm := normT (decTable normTbl), emoji := some (lookupT (decTable emojiTbl)),
+                         isSpace := pyIsSpace, sortSpans := false }
+      let con : ConsoleH := { emoji := decBool ce, markup := decBool cm, highlight := decBool ch, highlighter := hlT (decHlTable conHl) }
+      encRendered (printStrsH cfg con (decOptBool e) (decOptBool m) (decOptBool h) (decStr sep) (decStrList strs))
     | _ => "bad-args")
 ]
 
